@@ -68,6 +68,13 @@ def py_floordiv(a, b):
     return z3.If(b > 0, q, z3.If(m == 0, q, q - 1))
 
 
+class VariantSet:
+    """several type variants of one method contract; resolved at the call by the argument values"""
+    def __init__(self, cands):
+        self.cands = cands
+        self.is_property = False
+
+
 class Engine:
     def __init__(self, reg, contract, fnode, class_node=None, module_node=None):
         self.reg = reg
@@ -92,6 +99,16 @@ class Engine:
         self.comp_collect: Optional[List[Any]] = None
         self.comp_calls = 0
         self.fold_ordinal = 0
+        try:
+            from . import extract as _ex
+            if contract.file.endswith(".py"):
+                for n_ in ast.walk(_ex.load_module(contract.file)[1]):
+                    if isinstance(n_, ast.ClassDef) and len(n_.bases) == 1 and isinstance(n_.bases[0], ast.Name) \
+                            and n_.name not in EXC_PARENT and (n_.bases[0].id in EXC_PARENT or n_.bases[0].id == "BaseException"):
+                        EXC_PARENT[n_.name] = n_.bases[0].id
+                        EXC_NAMES.add(n_.name)
+        except Exception:
+            pass
         mentioned = " ".join(list(contract.types.values()) + list((contract.closure or {}).values()) + [contract.returns or ""])
         for ax in getattr(reg, "axioms", {}).values():
             # data-model axioms are only added where their record sort occurs (they would otherwise burden
@@ -138,6 +155,16 @@ class Engine:
         a stated condition.  Afterwards the normal edge assumes cond."""
         if self.spec_mode or not self.emit:
             return
+        frame = self.catching_frame(excname)
+        if frame is not None:
+            # inside a `try` whose handlers catch excname: the exception edge is control flow, not an obligation
+            if not is_true(cond):
+                est = st.fork()
+                est.pc += list(self.guards) + [z3.Not(cond)]
+                frame["edges"].append((excname, est, lineno))
+            if not self.guards:
+                st.pc.append(cond)
+            return
         allowed = self.c.raises.get(excname)
         goal = cond
         if allowed is not None:
@@ -150,6 +177,28 @@ class Engine:
         self.oblige(st, f"exc@L{lineno}:{excname}:{what}", "exc", goal, lineno, detail=f"{excname} impossible")
         if not self.guards:
             st.pc.append(cond)
+
+    def str_id(self, v: VSeq):
+        """a scalar standing for the *value* of a string term, so that strings can be arguments of the
+        specification's uninterpreted functions: one constant per distinct string term, with
+        id(a) == id(b) <=> a == b stated for every pair of string terms registered so far"""
+        if not hasattr(self, "_str_ids"):
+            self._str_ids = []
+        key = self._vkey(v)
+        for k_, v_, c_ in self._str_ids:
+            if k_ == key:
+                return c_
+        c = z3.Const(f"strid#{len(self._str_ids)}", sort_of("StrId"))
+        for _, v_, c_ in self._str_ids:
+            self.axioms.append((c == c_) == self.eq(v, v_))
+        self._str_ids.append((key, v, c))
+        return c
+
+    def catching_frame(self, excname: str):
+        for fr in reversed(getattr(self, "try_stack", [])):
+            if any(exc_is_a(excname, h) for h in fr["catches"]):
+                return fr
+        return None
 
     # ------------------------------------------------------------ conversions
     def truthy(self, v: V):
@@ -312,11 +361,39 @@ class Engine:
                 return r, r.subclasses[name]
         return None, None
 
-    def method_contract(self, cls: str, name: str):
-        for c in self.reg.contracts.values():
-            if c.qualname == f"{cls}.{name}":
+    def method_contract(self, cls: str, name: str, args: Optional[List[V]] = None):
+        """contract of a method; several type variants `Cls.m@tag` are selected by the argument values"""
+        cands = [c for c in self.reg.contracts.values()
+                 if c.qualname == f"{cls}.{name}" or c.qualname.startswith(f"{cls}.{name}@")]
+        exact = [c for c in cands if c.qualname == f"{cls}.{name}"]
+        if exact:
+            return exact[0]
+        cands = [c for c in cands if (c.path_hints or {}).get("callable_variant", False)]
+        if not cands:
+            return None
+        if len(cands) == 1 and args is None:
+            return cands[0]
+        if args is None:
+            return VariantSet(cands)
+        return self.select_variant(cands, args)
+
+    def select_variant(self, cands, args: List[V]):
+        def fits(v: V, t: T) -> bool:
+            if isinstance(t, TAny): return True
+            if isinstance(t, TOpt): return isinstance(v, (VNone, VOpt)) or fits(v, t.t)
+            if isinstance(v, VOpt): return fits(v.val, t)
+            if isinstance(t, TRec): return isinstance(v, VRec) and v.cls == t.name
+            if isinstance(t, TInt): return isinstance(v, (VInt, VBool))
+            if isinstance(t, TBool): return isinstance(v, VBool)
+            if isinstance(t, TNStr): return isinstance(v, VNStr)
+            if isinstance(t, TSeq): return isinstance(v, (VSeq, VTup)) and self.to_seq(v).kind == t.kind
+            if isinstance(t, TTup): return isinstance(v, VTup) and len(v.items) == len(t.items)
+            return False
+        for c in cands:
+            params = self.params_of(c)
+            if len(args) <= len(params) and all(fits(a, parse_type(c.types[p])) for p, a in zip(params, args) if p in c.types):
                 return c
-        return None
+        raise Unsupported(f"no contract variant of {cands[0].qualname.split('@')[0]} fits the argument types")
 
     def ev_clause(self, text: str, env: Dict[str, V], heap: Optional[Dict] = None) -> V:
         node = ast.parse(text.strip(), mode="eval").body
@@ -345,6 +422,12 @@ class Engine:
             env[p] = self.coerce(a, parse_type(c.types[p])) if p in c.types else a
         for k, v in (kwargs or {}).items():
             env[k] = v
+        for p in params:
+            if p not in env:
+                d = (c.path_hints or {}).get("defaults", {}).get(p)
+                if d is not None:
+                    dv = self.ev_clause(d, {})
+                    env[p] = self.coerce(dv, parse_type(c.types[p])) if p in c.types else dv
         missing = [p for p in params if p not in env]
         if missing:
             raise Unsupported(f"call of {c.key}: missing args {missing} (defaults not modelled)")
@@ -478,6 +561,7 @@ class Engine:
         n = node.id
         if n in st.env: return st.env[n]
         if n in ("True", "False"): return VBool(n == "True")
+        if n == "str": return VClass("str")
         if n == "Nothing": return VNone()          # returns.maybe.Nothing modelled as None of an Optional
         if n in self.reg.specs: return VFunc(builtin="spec:" + n, name=n)
         if n in BUILTINS: return VFunc(builtin=n, name=n)
@@ -545,6 +629,8 @@ class Engine:
 
     def ev_IfExp(self, node, st):
         c = self.truthy(self.ev(node.test, st))
+        if is_true(c): return self.ev(node.body, st)
+        if is_false(c): return self.ev(node.orelse, st)
         self.guards.append(c)
         try:
             a = self.ev(node.body, st)
@@ -1044,10 +1130,15 @@ class Engine:
                 v = self.ev(a, st)
                 if isinstance(v, VOpt):
                     v = v.val
+                if isinstance(v, VSeq) and v.kind == "str":
+                    zs.append(self.str_id(v))
+                    continue
                 if not isinstance(v, (VRec, VAny, VInt, VBool)):
                     raise Unsupported("uf over non-scalar argument")
                 zs.append(v.t)
             app = z3.Function("uf." + uname, *[z.sort() for z in zs], rng)(*zs) if zs else z3.Const("uf." + uname, rng)
+            if which == "uf_sort" and rng.name() in self.reg.records:
+                return VRec(rng.name(), app)
             return VBool(app) if which == "uf_bool" else VInt(app) if which == "uf_int" else VAny(app)
         if isinstance(node.func, ast.Name) and node.func.id in ("forall_sort", "exists_sort") and len(node.args) == 3 \
                 and isinstance(node.args[0], ast.Name) and isinstance(node.args[1], ast.Constant):
@@ -1088,6 +1179,20 @@ class Engine:
             txt = ast.unparse(node)
             if txt in ghost_calls:
                 g = ghost_calls[txt]
+                if g.startswith("call:"):
+                    # the expression is replaced by a call of a named (assumed) contract of the dependency:
+                    # "call:<contract qualname>|<argument expressions over the local names>"
+                    cname, _, argtxt = g[5:].partition("|")
+                    cname = cname.strip()
+                    cnode = ast.parse("f(" + argtxt + ")", mode="eval").body
+                    cc = self.reg.by_name(cname)
+                    if cc is None:
+                        raise Unsupported(f"ghost call of unknown contract {cname}")
+                    note = f"expression `{txt[:60]}` modelled by the contract of {cc.key}"
+                    if note not in self.dropped:
+                        self.dropped.append(note)
+                    cargs = [self.ev(a, st) for a in cnode.args]
+                    return self.call_contract(cc, cargs, st, node.lineno)
                 return st.env[g] if g in st.env else self.ev_clause(g, st.env, heap=st.heap)
         if any(isinstance(a, ast.Starred) for a in node.args):
             raise Unsupported("starred call argument")
@@ -1197,7 +1302,10 @@ class Engine:
         if f.contract is not None:
             if f.env and "__self__" in f.env:
                 args = [f.env["__self__"]] + args
-            return self.call_contract(f.contract, args, st, lineno, kwargs)
+            cc = f.contract
+            if isinstance(cc, VariantSet):
+                cc = self.select_variant(cc.cands, args)
+            return self.call_contract(cc, args, st, lineno, kwargs)
         if f.builtin:
             if f.builtin.startswith("spec:"):
                 return self.apply_spec(self.reg.specs[f.builtin[5:]], args)
@@ -1491,10 +1599,63 @@ class Engine:
     def st_Raise(self, s, st):
         name = "Exception"
         e = s.exc
+        if e is None:
+            cur = st.env.get("__exc__")
+            if not isinstance(cur, VExc):
+                raise Unsupported("bare raise outside a handler")
+            return [Outcome("raise", st, exc=cur.name, lineno=s.lineno)]
         if isinstance(e, ast.Call): e = e.func
-        if isinstance(e, ast.Name): name = e.id
+        if isinstance(e, ast.Name):
+            name = e.id
+            if isinstance(st.env.get(name), VExc):
+                name = st.env[name].name          # `raise err` re-raises the caught exception
         elif isinstance(e, ast.Attribute): name = e.attr
         return [Outcome("raise", st, exc=name, lineno=s.lineno)]
+
+    def st_Try(self, s, st):
+        """try/except[/else]: exception edges of the body that a handler catches become control flow into
+        that handler (first matching handler, Python semantics); everything else propagates."""
+        if s.finalbody:
+            raise Unsupported("try/finally")
+        handlers = []
+        for h in s.handlers:
+            if h.type is None:
+                names = ["BaseException"]
+            elif isinstance(h.type, ast.Tuple):
+                names = [x.id if isinstance(x, ast.Name) else x.attr for x in h.type.elts]
+            else:
+                names = [h.type.id if isinstance(h.type, ast.Name) else h.type.attr]
+            handlers.append((names, h))
+        frame = {"catches": [n for names, _ in handlers for n in names], "edges": []}
+        if not hasattr(self, "try_stack"):
+            self.try_stack = []
+        self.try_stack.append(frame)
+        try:
+            outs = self.exec_block(s.body, st)
+        finally:
+            self.try_stack.pop()
+        results: List[Outcome] = []
+
+        def dispatch(excname: str, est: State, lineno: int):
+            for names, h in handlers:
+                if any(exc_is_a(excname, n) for n in names):
+                    est.env = dict(est.env)
+                    est.env["__exc__"] = VExc(excname)
+                    if h.name:
+                        est.env[h.name] = VExc(excname)
+                    results.extend(self.exec_block(h.body, est))
+                    return
+            results.append(Outcome("raise", est, exc=excname, lineno=lineno))
+        for o in outs:
+            if o.kind == "raise":
+                dispatch(o.exc, o.st, o.lineno)
+            elif o.kind == "fall" and s.orelse:
+                results.extend(self.exec_block(s.orelse, o.st))
+            else:
+                results.append(o)
+        for excname, est, lineno in frame["edges"]:
+            dispatch(excname, est, lineno)
+        return results
 
     def st_Assert(self, s, st):
         # `assert isinstance(...)` / is_path(...) are type assumptions (logged)
@@ -1792,6 +1953,19 @@ def select_fragment(fnode, frag: Dict[str, Any], eng: Engine) -> List[ast.stmt]:
             out.append(s)
         eng.dropped.append(f"fragment: statements from the first `{frag['stmt']}` on are not part of this obligation set")
         return out
+    if rule == "until_stmt":
+        out = []
+        hit = False
+        for st_ in fnode.body:
+            if ast.unparse(st_).startswith(frag["starts_with"]):
+                hit = True
+                break
+            out.append(st_)
+        if not hit:
+            raise Unsupported(f"fragment: no top-level statement starts with `{frag['starts_with']}`")
+        eng.dropped.append(f"fragment until_stmt: statements from `{frag['starts_with']}` on are not part of this "
+                           "obligation set (a path reaching them must be infeasible under the contract's pre-condition)")
+        return out
     if rule == "from_stmt":
         out, on = [], False
         for s in fnode.body:
@@ -1838,7 +2012,27 @@ def select_fragment(fnode, frag: Dict[str, Any], eng: Engine) -> List[ast.stmt]:
 # --------------------------------------------------------------------------
 
 EXC_NAMES = {"RuntimeError", "ValueError", "TypeError", "IndexError", "AssertionError", "StopIteration",
-             "TimeoutError", "NotImplementedError", "KeyError", "Exception"}
+             "TimeoutError", "NotImplementedError", "KeyError", "Exception", "SyntaxError", "SemanticError",
+             "UnknownResultError", "ZeroDivisionError", "AttributeError", "LookupError", "ArithmeticError", "OSError"}
+
+# direct base class of each exception the subset knows (CPython's hierarchy; isla's own classes derive from Exception)
+EXC_PARENT = {"Exception": "BaseException", "RuntimeError": "Exception", "ValueError": "Exception",
+              "TypeError": "Exception", "LookupError": "Exception", "IndexError": "LookupError",
+              "KeyError": "LookupError", "AssertionError": "Exception", "StopIteration": "Exception",
+              "OSError": "Exception", "TimeoutError": "OSError", "NotImplementedError": "RuntimeError",
+              "SyntaxError": "Exception", "SemanticError": "Exception", "UnknownResultError": "Exception",
+              "ArithmeticError": "Exception", "ZeroDivisionError": "ArithmeticError", "AttributeError": "Exception",
+              "UnicodeError": "ValueError", "RecursionError": "RuntimeError"}
+
+
+def exc_is_a(name: str, base: str) -> bool:
+    seen = 0
+    while name is not None and seen < 10:
+        if name == base:
+            return True
+        name = EXC_PARENT.get(name)
+        seen += 1
+    return base == "BaseException"
 
 
 def _b_len(e: Engine, args, kw, st, ln):
@@ -1937,6 +2131,20 @@ def _b_isinstance(e, args, kw, st, ln):
     if isinstance(v, VOpt):
         inner = _b_isinstance(e, [v.val, cls], kw, st, ln)
         return VBool(z3.And(z3.Not(v.is_none), inner.t))
+    if isinstance(cls, VTup):
+        parts = [_b_isinstance(e, [v, c_], kw, st, ln).t for c_ in cls.items]
+        return VBool(z3.Or(*parts))
+    bname = cls.name if isinstance(cls, VClass) and cls.name in ("str", "int", "bool", "list", "tuple") else \
+        (cls.builtin if isinstance(cls, VFunc) and cls.builtin in ("int", "bool", "list", "tuple") else None)
+    if bname is not None:
+        if isinstance(v, VAny):
+            raise Unsupported("isinstance on a value of unknown type")
+        if bname == "str": return VBool(isinstance(v, VNStr) or (isinstance(v, VSeq) and v.kind == "str"))
+        if bname == "int": return VBool(isinstance(v, (VInt, VBool)))
+        if bname == "bool": return VBool(isinstance(v, VBool))
+        return VBool(isinstance(v, (VSeq, VTup)) and e.to_seq(v).kind == bname)
+    if isinstance(cls, VClass) and isinstance(v, (VInt, VBool, VNStr, VSeq, VTup, VNone)):
+        return VBool(False)
     if isinstance(cls, VClass) and isinstance(v, VRec):
         r, info = e.find_subclass(cls.name)
         if r is not None and r.name == v.cls:
